@@ -48,6 +48,9 @@ CHECKS = {
     'C15': dict(engine='Expose', technique='TLA+ Expose: operational Absorb/ExposePorts (mirror of ports.py/process_spec.py, allocation ids) vs declarative Selected/NsProps/Independent, TLC on every (tree, rules, namespace, options) instance; each instance and every single mutation executed on real ProcessSpec objects',
                 text='Source trees with <=4 (5 thorough) ports and string-prefix name pairs x every include/exclude antichain x target namespaces x namespace_options; destination tree, descriptions, exposed-port memory and aliasing compared with the TLA+ result; every single mutation of either side checked for independence.',
                 ref='5 C15', note='Trusted base: TLC, harness/expose_real.py. Namespace defaults that are mutable objects mutated in place, and non-atomic refusals, are outside the universe (stated in the evidence).'),
+    'C16': dict(engine='ProcessCore', technique='TLA+ ProcessCore comms extension (message_receive/broadcast_receive/_schedule_rpc reply tasks, state_changed announcements) + ProcessFaults twin for broadcast failures, TLC exhaustive + replay through an in-process communicator',
+                text='Every sequence of <=K RPC/broadcast control messages (also mixed with direct calls) between any two callbacks: state, replies and event log equal the specification in which the handler applies the direct-call operator; announcements once and in order; tolerated broadcast failures leave the run identical to a fault-free twin; unsubscribed after termination.',
+                ref='5 C16', note=CORE_NOTE + ' RabbitMQ is replaced by an in-process kiwipy.LocalCommunicator subclass.'),
     'C20': dict(engine='Adapters', technique='TLA+ Adapters (futures, ready queue, synchronous kiwipy callbacks), TLC exhaustive (Faithful, ExactlyOnce, ActionOnce, Stable) + replay of every behaviour on the real adapters + validation of message_receive traces',
                 text='Chains of futures resolving to futures to depth 2 (4 thorough), every outcome at every level in every completion order, for create_task, plum_to_kiwi_future, unwrap_kiwi_future, their composition, convert_to_comm, _schedule_rpc replies and CancellableAction histories.',
                 ref='5 C20', note='Trusted base: TLC, harness/vloop.py, harness/adapters_real.py. Real cross-thread delivery is not explored.'),
